@@ -279,3 +279,23 @@ Example K_classes_nonvacuous :
   K_shadow_const (FForall (MkVar VBound (lit "start") (lit "<start>")) (InVar v_start) None
                     (FSPred (lit "inside") [PVar (MkVar VBound (lit "start") (lit "<start>")); PVar v_start])) = true.
 Proof. repeat split; vm_compute; reflexivity. Qed.
+
+(* ---------- unparse_isla raises on a re.loop with fewer than two parameters ---------- *)
+(* Full statement (FALSE): forall f, exists t, unparse_res f = Ok t *)
+Definition f_loop_short : cformula :=
+  FForall v_x (InVar v_start) None
+    (FSmt (SApp KInRe (lit "str.in_re")
+             [SVar (lit "x"); SApp (KLoopShort [1]) (lit "re.loop") [SApp KOther (lit "str.to_re") [SStr (lit "a")]]],
+           [v_x])).
+Theorem unparse_total_refuted : exists f, unparse_res f = Raise IndexErr.
+Proof. exists f_loop_short. vm_compute. reflexivity. Qed.
+
+Theorem unparse_total_partial f : K_loop_arity f = false -> unparse_res f = Ok (unparse f).
+Proof. intro H. unfold unparse_res. rewrite H. reflexivity. Qed.
+
+Example unparse_total_partial_nonvacuous :
+  K_loop_arity (FSmt (SApp KInRe (lit "str.in_re")
+     [SVar (lit "x"); SApp (KLoop 1 0) (lit "re.loop") [SApp KOther (lit "str.to_re") [SStr (lit "a")]]], [v_x])) = false
+  /\ smt_str (SApp (KLoop 1 0) (lit "re.loop") [SApp KOther (lit "str.to_re") [SStr (lit "a")]])
+     = lit "((_ re.loop 1 0) (str.to_re ""a""))".
+Proof. split; vm_compute; reflexivity. Qed.
